@@ -158,6 +158,7 @@ func C14(p *core.Program, r *core.Report) {
 	r.Assumptions = append(r.Assumptions, "two bundles with equal (source, creation time) get different numbers iff the counter update is atomic and numbers are assigned before use as a key")
 
 	checkAssignBeforePersist(p, r)
+	checkSequenceStateRestored(p, r)
 
 	// AT: IdKeeper.data
 	g := newGuardedEngine(p)
